@@ -136,6 +136,9 @@ let () =
          (* NC_computeshapes at open: handle->recsize = sum of the lengths of the file's record variables *)
          recsize := file_recsize (Array.to_list (Array.map (fun d -> d.mm) !dss));
          Array.iter (fun d -> d.mm <- m_set_recsize d.mm !recsize) !dss
+       | "O" -> nofill := false; step_all OpReopenRO;
+         recsize := file_recsize (Array.to_list (Array.map (fun d -> d.mm) !dss));
+         Array.iter (fun d -> d.mm <- m_set_recsize d.mm !recsize) !dss
        | "E" -> emit "E" "E"
        | t -> failwith ("bad token " ^ t)
      done
